@@ -1,5 +1,6 @@
 import Comdex.Lemmas.LiqOrders
 import Comdex.Lemmas.LiqAmmBridge
+import Comdex.Lemmas.LiqMoves
 import Comdex.Props.C05
 /-!
 # C04 — Liquidity custody: escrows, reserves and farmed pool coins are fully backed
@@ -23,6 +24,11 @@ Property clause → theorem
         `pair_escrow_ge_orders_modelled` (escrow ≥ Σ remaining for histories whose match results are lossless runs of the
           modelled matcher — no coin-conservation premise), `pair_escrow_ge_orders` (same from `MatchConserving`),
         `pair_escrow_ge_orders_counterexample`, `d2_offset_witness` (the D2 book of C05: deficit exactly 1000 base)
+* (ledger of a batch — what "fully backed" rests on) no ordinary coin is minted or burnt by any message or hook, in
+  particular not by matching; the dust collector and the pool reserves move by exactly the named amounts
+      → `coins_conserved` (every history, every coin denom: Σ over all real accounts constant), `bank_keys_unique`,
+        `batch_conserves_coins`, `batch_dust_exact`, `batch_reserve_exact`
+        (swap-fee collector and orderers: `C07.finish_moves_exactly`, `C07.fill_pays_demand_coins`)
 * "the liquidity module account holds exactly the pool coins recorded as farmed (queued plus active) for every pool"
       → `farm_custody_exact`
 * "every pool whose pool-coin supply has reached zero is marked disabled" → `zero_supply_disabled`
@@ -125,6 +131,38 @@ theorem pair_escrow_ge_orders_modelled {cfg : Cfg} (hc : CfgOk cfg) (funds : Lis
   rename_i a' ms ds ws
   exact fun m hmm => modelledLossless_conserving (hm a' ms ds ws hop m hmm)
 
+/-! ### the batch as a ledger step -/
+
+/-- **No ordinary coin is ever minted or burnt**: for every history and every coin denom, the sum of the balances of all
+real accounts (users, escrows, reserves, fee / dust collectors, module account) is what it was at genesis.  (Only pool
+coins are minted / burnt, by pool creation and executed deposits / withdrawals.) -/
+theorem coins_conserved (cfg : Cfg) (funds : List (Nat × Nat × Nat)) (ops : List Op) (n : Nat) :
+    coinTotal n (after cfg funds ops).bank = coinTotal n (genesis funds).bank :=
+  coinTotal_moves (mv_runT ops (genesis funds)) n
+
+/-- the bank holds one entry per (account, denom) — so `coinTotal` really is the sum over accounts -/
+theorem bank_keys_unique (cfg : Cfg) (funds : List (Nat × Nat × Nat)) (ops : List Op) :
+    KeysNodup (after cfg funds ops).bank :=
+  keysNodup_moves (mv_runT ops (genesis funds)) (keysNodup_genesis funds)
+
+/-- **Applying a match result neither mints nor burns**, whatever the (observed) fills, flows and dust are. -/
+theorem batch_conserves_coins {cfg : Cfg} {s s' : State} {p : Pair} {m : MatchIn} (h : applyMatch cfg s p m = some s') (n : Nat) :
+    coinTotal n s'.bank = coinTotal n s.bank :=
+  coinTotal_moves (mv_applyMatch h) n
+
+/-- **Dust collector**: receives exactly the match result's quote difference, in the pair's quote denom. -/
+theorem batch_dust_exact {cfg : Cfg} {s s' : State} {p : Pair} {m : MatchIn} (h : applyMatch cfg s p m = some s')
+    (a : Nat) (d : Denom) :
+    s'.bal (.dust a) d = s.bal (.dust a) d + (if a = p.app ∧ d = p.quote then m.dust else 0) :=
+  applyMatch_dust h a d
+
+/-- **Pool reserves**: each reserve account moves by exactly what the pool orders of that pool traded. -/
+theorem batch_reserve_exact {cfg : Cfg} {s s' : State} {p : Pair} {m : MatchIn} (h : applyMatch cfg s p m = some s')
+    (a pl : Nat) (d : Denom) :
+    s'.bal (.reserve a pl) d + sumOver (fun f : PoolFlow => if a = p.app ∧ f.pool = pl ∧ sideIn p f.buy = d then f.paid else 0) m.pools =
+    s.bal (.reserve a pl) d + sumOver (fun f : PoolFlow => if a = p.app ∧ f.pool = pl ∧ sideOut p f.buy = d then f.recv else 0) m.pools :=
+  applyMatch_reserve h a pl d
+
 /-- **Farmed pool coins, exact.** -/
 theorem farm_custody_exact {cfg : Cfg} (hc : CfgOk cfg) (funds : List (Nat × Nat × Nat)) (ops : List Op) (a p : Nat) :
     (after cfg funds ops).bal .module (.pool a p) = farmSum a p (after cfg funds ops).farmers :=
@@ -210,5 +248,6 @@ example : ((after cfg1 funds1 opsOK).orders.map fun o => (o.id, o.remaining, o.s
 example : (after cfg1 funds1 opsOK).bal (.pairEscrow 1 1) (.coin 1) = 5045 := by decide
 example : remSum 1 1 (.coin 1) (after cfg1 funds1 opsOK).orders = 5000 := by decide
 example : touchesSupply 1 1 (.createPool 1 0 1 false 5 5 5 true) := rfl
+example : coinTotal 1 (after cfg1 funds1 opsOK).bank = 2000000 ∧ coinTotal 1 (genesis funds1).bank = 2000000 := by decide
 
 end Comdex.C04
